@@ -5,7 +5,7 @@
 From Coq Require Import List NArith ZArith Arith Bool.
 Import ListNotations.
 Require Import V.base.Fld V.base.ZpField V.model.LinAlg V.model.Access V.model.Msp V.model.Kw.
-Require Import V.proofs.Span_proofs V.proofs.Msp_proofs V.proofs.Kw_proofs.
+Require Import V.proofs.Span_proofs V.proofs.Msp_proofs V.proofs.Kw_proofs V.proofs.Families_proofs.
 
 (* ---- generic: every MSP (any matrix, any labelling — ideal or not), every field ------------- *)
 
@@ -85,3 +85,46 @@ Theorem C02_to_additive_sums : forall F (K : fops F), flaws K -> forall (m : msp
     fsumf K f ids = nth 0 r (f0 K).
 Proof. exact @to_additive_dealt. Qed.
 Print Assumptions C02_to_additive_sums.
+
+(* ---- per family: the induced MSP accepts exactly the qualified sets ----------------------------------
+   (for ID lists of holders that own a row of the MSP; any order, repetitions allowed) *)
+
+(* threshold / Vandermonde.  Hypothesis: the nodes FromUint64(id) are pairwise distinct and non-zero
+   in the field — true for distinct non-zero uint64 IDs whenever the field order exceeds 2^64 *)
+Theorem C02_threshold_exact : forall F (K : fops F), flaws K -> forall (fromN : N -> F) t ps (m : msp) ids,
+  induced_thr K fromN t ps = Some m ->
+  NoDup (map fromN (nodupN ps)) -> (forall id, In id ps -> fromN id <> f0 K) ->
+  (forall id, In id ids -> In id (msp_lab m)) ->
+  accepts K m ids = is_qualified (Thr t ps) ids.
+Proof. exact @thr_accepts_iff. Qed.
+Print Assumptions C02_threshold_exact.
+
+Theorem C02_unanimity_exact : forall F (K : fops F), flaws K -> forall ps (m : msp) ids,
+  induced_una K ps = Some m ->
+  (forall id, In id ids -> In id (msp_lab m)) ->
+  accepts K m ids = is_qualified (Una ps) ids.
+Proof. exact @una_accepts_iff. Qed.
+Print Assumptions C02_unanimity_exact.
+
+(* CNF.  A shareholder contained in every maximal unqualified set owns no row (known finding
+   cnf-holder-without-rows); the statement is about lists of row-owning holders *)
+Theorem C02_cnf_exact : forall F (K : fops F), flaws K -> forall mus (m : msp) ids,
+  induced_cnf K mus = Some m ->
+  (forall id, In id ids -> In id (msp_lab m)) ->
+  accepts K m ids = is_qualified (Cnf mus) ids.
+Proof. exact @cnf_accepts_iff_closed. Qed.
+Print Assumptions C02_cnf_exact.
+
+(* ---- hypotheses are satisfiable: threshold (2,3) over Z_7, a CNF and a unanimity MSP ------------------ *)
+Definition K7 := ZpS 7 (prime_gt0 7 prime_7).
+Definition fromN7 (n : N) := zp_of 7 (prime_gt0 7 prime_7) (Z.of_N n).
+
+Example C02_nonvacuous :
+  (exists m, induced_thr K7 fromN7 2 [3;1;2]%N = Some m /\
+             accepts K7 m [1;3]%N = true /\ accepts K7 m [2]%N = false /\
+             reconstruct K7 m (map (share_of K7 m (mvec K7 (msp_M m) [fromN7 5; fromN7 4])) [3;1]%N) = Some (fromN7 5)) /\
+  (exists m, induced_cnf K7 [[1;2];[2;3]]%N = Some m /\ accepts K7 m [1;3]%N = true /\ accepts K7 m [3]%N = false) /\
+  (exists m, induced_una K7 [1;2;3]%N = Some m /\ accepts K7 m [1;2;3]%N = true /\ accepts K7 m [1;3]%N = false).
+Proof.
+  split; [|split]; eexists; (split; [vm_compute; reflexivity|]); repeat split; vm_compute; reflexivity.
+Qed.
